@@ -6,6 +6,8 @@
 ./check selftest fidelity                SimFS vs the real file system, frame walker vs golden frames
 ./check selftest sensitivity [Cxx ...]   every patch under /verif/mutants and /verif/seeded must be
                                          caught by the quick check of its property
+./check selftest specificity [Cxx ...]   every property-preserving patch under /verif/benign must leave the quick
+                                         check of every (named) property silent
 Exit 0 = all good, 2 = a self-test failed (never 1: a self-test failure is not a property violation).
 """
 
@@ -101,6 +103,11 @@ def main(argv):
 
         only = next((a.split("=", 1)[1] for a in argv if a.startswith("only=")), None)
         ok &= sensitivity.run(props, only=only)
+    if what in ("specificity",):
+        from . import sensitivity
+
+        only = next((a.split("=", 1)[1] for a in argv if a.startswith("only=")), None)
+        ok &= sensitivity.run_specificity(props, only=only)
     print("selftest %s: %s" % (what, "OK" if ok else "FAILED"))
     return 0 if ok else 2
 
